@@ -7,7 +7,7 @@ from common import *
 from harness.shells import *
 
 LEVEL = 'proof'
-RULE = ('store basis/versions (seed-chosen sample in quick, all in thorough) and generated valid dictionaries (fused sp/spd, shared exponents, '
+RULE = ('store basis/versions (seed-chosen sample: 45 in quick, 400 in thorough, the corpus first) and generated valid dictionaries (fused sp/spd, shared exponents, '
         'block-general, zero padding, mixed notations, l up to 12, ECP-only) x {prune_basis, uncontract_general, uncontract_spdf k=0..3, '
         'make_general skip/no-skip, sort_basis} + the 8 subsets of the three get_basis flags on store entries; one case = (basis, element, op). '
         'Non-trivial = the operation changed the shell list of that element (distinct by content hash).')
@@ -266,7 +266,7 @@ def run(ctx):
     bse = import_bse()
     R = Result('C02')
     items = [('corpus/' + n, b) for n, b in corpus_bases('C02')]
-    pairs = sample_pairs(ctx, ctx.n(45, 10 ** 6))
+    pairs = sample_pairs(ctx, ctx.n(45, 400))
     items += [('%s/%s' % p, p) for p in pairs]
     rng = ctx.rng
     for i in range(ctx.n(200, 3000)):
